@@ -32,6 +32,7 @@ type FuncAn struct {
 	Converged bool
 	rpo       []*ssa.BasicBlock
 	entry     *State // precondition facts (roots: none)
+	EntryNote []string // rendered entry facts
 
 	elemLenMemo map[ssa.Value]*Lin
 	inited      map[*Atom]bool
